@@ -89,6 +89,8 @@ class Check:
             }
             if t['protocol'] == 'tap':
                 t['should_fail'] = False
+            elif t['protocol'] == 'exitcode' and rng.random() < 0.1:
+                t['expected_exitcode'] = rng.choice([3, 1, 2])      # documented for protocol exitcode only
             tests.append(t)
         setups: T.List[T.Dict[str, T.Any]] = []
         if rng.random() < 0.25:
@@ -220,6 +222,8 @@ class Check:
             code = rng.choice([1, 1, 2, 77, 99, 127, 255, -11, -6, -15])
         else:
             code = 0
+        if t.get('expected_exitcode') and rng.random() < 0.6:
+            code = rng.choice([t['expected_exitcode'], t['expected_exitcode'], 0, 0, 77])
         sc['dur'] = dur
         sc['code'] = code
         out: T.List[T.List[T.Any]] = []
@@ -508,7 +512,7 @@ class Check:
                 elif t['protocol'] == 'tap':
                     exp = 'TAP'
                 else:
-                    exp = MR.classify_exitcode(s['code'], t['should_fail'])
+                    exp = MR.classify_exitcode(s['code'], t['should_fail'], t.get('expected_exitcode') or 0)
             if exp == 'TAP':
                 lines = s['tap_text'].splitlines(True)
                 vb = tap_ref.verdict_bad(tap_ref.interpret(lines), s['code'] != 0)
